@@ -20,7 +20,7 @@ func main() {
 	defer sn.CleanupScratch()
 	nh := r.N(250, 6000)
 	o := gen.DefaultOpts()
-	so := hist.StepOpts{Reopen: true, Pool: true, Mine: true, AllowPlayHazard: true, PredictSubmit: true}
+	so := hist.StepOpts{Reopen: true, Pool: true, Mine: true, AllowPlayHazard: true, PredictSubmit: true, Engine: true}
 	hist.RunHistoriesX(r, nh, o, so, 10, 40, []hist.Auditor{hist.ModelAuditor}, func(s *hist.SUT, op hist.Op) []hist.Problem {
 		if op.Kind == "play" && strings.HasPrefix(op.Result, "FAIL") && op.Arg == ",hazard" {
 			return []hist.Problem{{Sig: "play-failed|pool-writer-vs-block-reader",
